@@ -82,13 +82,16 @@ def opener_kinds(c, facts, fn, arm_variant, target_method):
                                 ks.append(m.group(1))
                     if not ks:
                         continue
-                    # functions called in the then-branch (not in nested else-ifs)
+                    # functions called in the then-branch (not in nested else-ifs), or a direct Env::open/close call
                     for y, _ in hir_walk(x['then']):
                         if y['k'] == 'call':
                             tgt = facts.fns.get(callee_id(y))
                             if tgt is not None and tgt.mir and P.call_blocks(tgt, 'env::Env::' + target_method):
                                 for k in ks:
                                     kinds[k] = tgt.qname
+                        if y['k'] == 'mcall' and y['m'].endswith('env::Env::' + target_method):
+                            for k in ks:
+                                kinds.setdefault(k, fn.qname)
     return kinds
 
 
@@ -117,6 +120,8 @@ def r2_pairing(c, facts):
                 declarers.add(f2.id)
     for k, q in sorted(opens.items()):
         fn = facts.fn(q)
+        if fn is None or fn.id == res.id:
+            continue
         ob = P.call_blocks(fn, 'env::Env::open')
         db = list(P.call_blocks(fn, 'env::Env::declare'))
         for bi, t in fn.calls():
